@@ -153,9 +153,12 @@ theorem array_length (k : Kind) (e : Endian) (t : Ty) (vs : List Nat) :
 
 /-- `StreamBuffer << T[N]` appends the items' encodings in the order of the array, in every byte order (before commit
     7c56539 the non-native order reversed the items) -/
-theorem carray_canonical (k : Kind) (e : Endian) (t : Ty) (vs : List Nat) (hv : ∀ v ∈ vs, ValidBits t v) :
-    putCArray k e t vs = vs.flatMap (bytes (resolve e) (sizeofT t)) :=
-  flatMap_congr' _ _ vs (fun v hvm => scalar_canonical k e t v (hv v hvm))
+theorem carray_canonical (e : Endian) (t : Ty) (ht : t ≠ .ch) (vs : List Nat) (hv : ∀ v ∈ vs, ValidBits t v) :
+    putCArray .sb e t vs = vs.flatMap (bytes (resolve e) (sizeofT t)) :=
+  -- stated only where the library has the operation: StreamBuffer, and `T ≠ char` (a `char[N]` is a C string for
+  -- `operator<<`: `.cstr`).  `ht` is not needed by the proof; it keeps the claim inside what the code does.
+  have _ := ht
+  flatMap_congr' _ _ vs (fun v hvm => scalar_canonical .sb e t v (hv v hvm))
 
 /-- `stream << Array<String>` appends the strings' bytes one after the other, whatever the byte order and the
     class — never the String objects' memory (false in native order before commit 8a61870) -/
@@ -166,11 +169,13 @@ theorem string_array_canonical (k : Kind) (e : Endian) (ss : List (List UInt8)) 
 /-- **canonical bytes of a whole history**: for every class, start order and sequence of writes with
     byte-order switches anywhere, the stream content is the concatenation of each value's bytes under the
     order in force when it was written -/
-theorem write_canonical (k : Kind) (e : Endian) (ops : List WOp) :
+theorem write_canonical (k : Kind) (e : Endian) (ops : List WOp) (hwf : ∀ op ∈ ops, WF k op) :
     (writeAll k e ops).2 = encode e (ops.map toItem) := by
   induction ops generalizing e with
   | nil => rfl
-  | cons op r ih =>
+  | cons op r ih' =>
+    have ih := fun e => ih' e (fun o h => hwf o (List.mem_cons_of_mem _ h))
+    have hop := hwf op List.mem_cons_self
     cases op with
     | setEndian e' => simp [writeAll, writeOp, toItem, encode, ih]
     | scalar t v => simp [writeAll, writeOp, toItem, encode, ih, scalar_canonical k e t _ (norm_valid t v)]
@@ -182,7 +187,8 @@ theorem write_canonical (k : Kind) (e : Endian) (ops : List WOp) :
     | strArray ss => simp [writeAll, writeOp, toItem, encode, ih, string_array_canonical]
     | carray t vs =>
       simp only [writeAll, writeOp, List.map_cons, toItem, encode, ih]
-      rw [carray_canonical k e t _ (by intro v hv; obtain ⟨a, _, rfl⟩ := List.mem_map.mp hv; exact norm_valid t a)]
+      obtain ⟨rfl, ht⟩ := hop
+      rw [carray_canonical e t ht _ (by intro v hv; obtain ⟨a, _, rfl⟩ := List.mem_map.mp hv; exact norm_valid t a)]
 
 /-- **changing the byte order in mid-stream affects only the values written afterwards**: the bytes of
     the earlier writes are those of the history without the switch, the later ones those of a stream
@@ -202,7 +208,7 @@ theorem array_rewrite_canonical (k : Kind) (e e' : Endian) (t : Ty) (vs : List N
       (vs.map (norm t)).flatMap (bytes (resolve e) (sizeofT t)) ++
       ((vs.map (norm t)).flatMap (bytes (resolve e) (sizeofT t)) ++
        (vs.map (norm t)).flatMap (bytes (resolve e') (sizeofT t))) := by
-  rw [write_canonical]
+  rw [write_canonical _ _ _ (by intro op h; simp at h; rcases h with rfl | rfl | rfl | rfl <;> trivial)]
   simp [toItem, encode]
 
 /-! ## reading back -/
@@ -327,12 +333,14 @@ theorem array_get_put (k : Kind) (hk : k ≠ .sb) (e : Endian) (t : Ty) (vs : Li
     strings/byte arrays, byte-order switches anywhere), reading the same types in the same orders from the
     bytes written (followed by anything) returns the original values, ends in the same byte order and
     leaves exactly what followed -/
-theorem read_back (k : Kind) (e : Endian) (ops : List WOp) (rest : List UInt8) :
+theorem read_back (k : Kind) (e : Endian) (ops : List WOp) (rest : List UInt8) (hwf : ∀ op ∈ ops, WF k op) :
     readAll k e ((writeAll k e ops).2 ++ rest) (ops.flatMap mirror) =
       ((writeAll k e ops).1, ops.flatMap expected, rest) := by
   induction ops generalizing e with
   | nil => simp [readAll, writeAll]
-  | cons op r ih =>
+  | cons op r ih' =>
+    have ih := fun e => ih' e (fun o h => hwf o (List.mem_cons_of_mem _ h))
+    have hop := hwf op List.mem_cons_self
     rw [List.flatMap_cons, List.flatMap_cons, readAll_append]
     cases op with
     | setEndian e' =>
@@ -360,8 +368,9 @@ theorem read_back (k : Kind) (e : Endian) (ops : List WOp) (rest : List UInt8) :
       simp only [writeAll, writeOp, mirror, expected, List.append_assoc]
       have hvalid : ∀ v ∈ vs.map (norm t), ValidBits t v := by
         intro v hv; obtain ⟨a, _, rfl⟩ := List.mem_map.mp hv; exact norm_valid t a
-      rw [carray_canonical k e t _ hvalid]
-      have h := array_read_back k e t (vs.map (norm t)) ((writeAll k e r).2 ++ rest) hvalid
+      obtain ⟨rfl, ht⟩ := hop
+      rw [carray_canonical e t ht _ hvalid]
+      have h := array_read_back .sb e t (vs.map (norm t)) ((writeAll .sb e r).2 ++ rest) hvalid
       simp only [List.map_map] at h
       have hm : (vs.map fun _ => ROp.scalar t) = vs.map ((fun _ => ROp.scalar t) ∘ norm t) := by
         apply List.map_congr_left; intros; rfl
@@ -379,6 +388,51 @@ theorem read_back (k : Kind) (e : Endian) (ops : List WOp) (rest : List UInt8) :
       rw [ih e]
     | strArray ss =>
       simp only [writeAll, writeOp, mirror, expected, readAll, readOp, List.append_assoc, string_array_canonical,
+        Option.getD_some]
+      rw [List.take_left' rfl, List.drop_left' rfl]
+      rw [ih e]
+
+/-- **read-back of a whole history through the array operator** (File, Socket): as `read_back`, but every
+    `Array<T>` is read back with one `stream >> Array<T>` of the same length (commit cdda882) instead of one scalar
+    read per item -/
+theorem read_back_array_op (k : Kind) (hk : k ≠ .sb) (e : Endian) (ops : List WOp) (rest : List UInt8) (hwf : ∀ op ∈ ops, WF k op) :
+    readAll k e ((writeAll k e ops).2 ++ rest) (ops.flatMap mirrorA) =
+      ((writeAll k e ops).1, ops.flatMap expectedA, rest) := by
+  induction ops generalizing e with
+  | nil => simp [readAll, writeAll]
+  | cons op r ih' =>
+    have ih := fun e => ih' e (fun o h => hwf o (List.mem_cons_of_mem _ h))
+    have hop := hwf op List.mem_cons_self
+    rw [List.flatMap_cons, List.flatMap_cons, readAll_append]
+    cases op with
+    | setEndian e' =>
+      simp only [writeAll, writeOp, mirrorA, expectedA, mirror, expected, readAll, readOp, List.nil_append]
+      rw [ih e']
+    | scalar t v =>
+      simp only [writeAll, writeOp, mirrorA, expectedA, mirror, expected, readAll, readOp, List.append_assoc]
+      rw [get_put k e t _ _ (norm_valid t v)]
+      simp only []
+      rw [ih e]
+    | array t vs =>
+      simp only [writeAll, writeOp, mirrorA, expectedA, readAll, readOp, List.append_assoc]
+      have hvalid : ∀ v ∈ vs.map (norm t), ValidBits t v := by
+        intro v hv; obtain ⟨a, _, rfl⟩ := List.mem_map.mp hv; exact norm_valid t a
+      have h := array_get_put k hk e t (vs.map (norm t)) ((writeAll k e r).2 ++ rest) hvalid
+      rw [List.length_map] at h
+      rw [h]
+      simp only []
+      rw [ih e]
+    | carray t vs => exact absurd hop.1 hk
+    | bytes bs =>
+      simp only [writeAll, writeOp, mirrorA, expectedA, mirror, expected, readAll, readOp, List.append_assoc]
+      rw [List.take_left' rfl, List.drop_left' rfl]
+      rw [ih e]
+    | cstr bs =>
+      simp only [writeAll, writeOp, mirrorA, expectedA, mirror, expected, readAll, readOp, List.append_assoc, putCStr]
+      rw [List.take_left' rfl, List.drop_left' rfl]
+      rw [ih e]
+    | strArray ss =>
+      simp only [writeAll, writeOp, mirrorA, expectedA, mirror, expected, readAll, readOp, List.append_assoc, string_array_canonical,
         Option.getD_some]
       rw [List.take_left' rfl, List.drop_left' rfl]
       rw [ih e]
@@ -419,7 +473,37 @@ theorem string_read_back (k : Kind) (hk : k ≠ .sb) (e : Endian) (s rest : List
     simp only [getString, hg, Nat.not_lt.mpr hlen, if_false]
     simp [Nat.not_le.mpr hl]
 
-/-- **File `>> String` on arbitrary data** (at least the 4 length bytes present): the string returned followed
+/-- **`>> String` as a function of the bytes** (at least the 4 length bytes present): with `n` the int32 the first
+    four bytes denote in the order in force, taken as 0 when negative, the operator returns exactly the next `n`
+    bytes (File: as many of them as exist) and leaves exactly the bytes after them.  For Socket fewer than `n`
+    pending bytes would block, so the statement needs them to be there.  What this cannot express is the
+    out-of-bounds write of the code before e37681a (`x.resize(-1); x[-1] = 0`): lists have no outside; that part
+    is carried by the translator's whole-body shape check of `File::operator>>(String&)` and by ASan in K. -/
+theorem string_read_spec (k : Kind) (hk : k ≠ .sb) (e : Endian) (bs : List UInt8) (h : 4 ≤ bs.length)
+    (hs : k = .sock → (if 2 ^ 31 ≤ value (resolve e) (bs.take 4) then 0 else value (resolve e) (bs.take 4)) ≤ bs.length - 4) :
+    getString k e bs =
+      some (((bs.drop 4).take (if 2 ^ 31 ≤ value (resolve e) (bs.take 4) then 0 else value (resolve e) (bs.take 4))),
+            ((bs.drop 4).drop (if 2 ^ 31 ≤ value (resolve e) (bs.take 4) then 0 else value (resolve e) (bs.take 4)))) := by
+  have hr := scalar_read_spec k e .i32 bs (by simpa [sizeofT] using h) (by intro h; cases h)
+  simp only [sizeofT, asType] at hr
+  cases k
+  case sb => exact absurd rfl hk
+  case file =>
+    simp only [getString, Nat.not_lt.mpr h, if_false, hr]
+    by_cases hn : value (resolve e) (bs.take 4) ≥ 2 ^ 31
+    · simp [hn]
+    · simp [hn]
+  case sock =>
+    have hs' := hs rfl
+    simp only [getString, Nat.not_lt.mpr h, if_false, hr]
+    by_cases hn : value (resolve e) (bs.take 4) ≥ 2 ^ 31
+    · simp [hn]
+    · have hn' : ¬ 2 ^ 31 ≤ value (resolve e) (bs.take 4) := hn
+      simp only [hn', if_false] at hs'
+      simp [hn]
+      exact hs'
+
+/-- (weaker corollary of `string_read_spec`, kept: it does not pin down *which* prefix is returned) **File `>> String` on arbitrary data** (at least the 4 length bytes present): the string returned followed
     by what is left are exactly the bytes after the length — nothing beyond the data is touched, whatever the
     length says; a negative length gives the empty string (before commit e37681a: `x.resize(-1); x[-1] = 0`) -/
 theorem string_read_total (e : Endian) (bs : List UInt8) (h : 4 ≤ bs.length) :
